@@ -205,6 +205,8 @@ struct MockOps {
     reads_before_query: Rc<RefCell<Vec<usize>>>,
     /// when set: (path, content) written to the PHC error-bound file at the second query (the device's value changed between two polls)
     second_phc: Option<(String, Option<String>)>,
+    /// chronyd does not answer the second query
+    second_silent: bool,
     queries: usize,
 }
 
@@ -214,6 +216,9 @@ impl vp::ChronyOps for MockOps {
         self.reads_before_query.borrow_mut().push(n);
         self.queried.set(true);
         self.queries += 1;
+        if self.queries == 2 && self.second_silent {
+            return None;
+        }
         if self.queries == 2 {
             if let Some((path, content)) = &self.second_phc {
                 match content {
@@ -269,9 +274,18 @@ pub fn cmd_poller(a: &[&str]) -> String {
     let _ = dbox.send(&ChannelId::ClockErrorBoundPoller, Message::ThreadAbort);
     let ctx = Context { mbox: my, dbox, channel_id: ChannelId::ClockErrorBoundPoller };
     let reads = Rc::new(RefCell::new(Vec::new()));
-    let t = if some { Some(tracking(0.0, 0.0, 0.0, 1.0, 0, ref_time_for_age(1000), t_refid)) } else { None };
-    let second_phc = second.map(|x| (path.clone(), x.strip_prefix("ok:").map(|v| v.to_string())));
-    let ops = MockOps { tracking: t, grace, grace_before, queried: std::cell::Cell::new(false), reads_before_query: reads.clone(), second_phc, queries: 0 };
+    // optional `stratum=<n>` (any position after the sixth argument): the stratum of the report (default 1)
+    let stratum: u16 = a.iter().skip(6).find_map(|x| x.strip_prefix("stratum=")).and_then(|x| x.parse().ok()).unwrap_or(1);
+    let t = if some {
+        let mut t0 = tracking(0.0, 0.0, 0.0, 1.0, 0, ref_time_for_age(1000), t_refid);
+        t0.stratum = stratum;
+        Some(t0)
+    } else {
+        None
+    };
+    let second_silent = second.as_deref() == Some("silent");
+    let second_phc = if second_silent { None } else { second.map(|x| (path.clone(), x.strip_prefix("ok:").map(|v| v.to_string()))) };
+    let ops = MockOps { tracking: t, grace, grace_before, queried: std::cell::Cell::new(false), reads_before_query: reads.clone(), second_phc, second_silent, queries: 0 };
     set_clock(BASE_SECS as i128 * 1_000_000_000, 123_000_000_456);
     set_advance(1_000_000_000);
     let res = std::panic::catch_unwind(std::panic::AssertUnwindSafe(|| vp::run_poller(ctx, ops, phc_info, Duration::from_millis(1))));
@@ -380,5 +394,42 @@ pub fn cmd_phcfile(a: &[&str]) -> String {
         Ok(Ok(v)) => format!("ok value={}", v),
         Ok(Err(e)) => format!("err {}", format!("{:?}", e.kind()).replace(' ', "_")),
         Err(p) => format!("panic {}", crate::panic_msg(&p).replace(' ', "_")),
+    }
+}
+
+/// msgloop <max_drift_ppb> <step> ...: the same steps as `history`, but delivered as messages: all of them are queued in the
+/// writer thread's mailbox (followed by ThreadAbort) before the REAL process_messages loop runs over the REAL ShmUpdater.
+pub fn cmd_msgloop(a: &[&str]) -> String {
+    use clock_bound_d::channels::new_channel_web;
+    use clock_bound_d::thread_manager::Context;
+    use clock_bound_d::{ChannelId, Message};
+    let drift: u32 = a.get(0).and_then(|x| x.parse().ok()).unwrap_or(1000);
+    let store = Rc::new(RefCell::new(Vec::new()));
+    let (mut mbox, dbox) = new_channel_web(vec![ChannelId::MainThread, ChannelId::ShmWriter]);
+    let my = mbox.get_mailbox(&ChannelId::ShmWriter).unwrap();
+    let _main = mbox.get_mailbox(&ChannelId::MainThread).unwrap();
+    for step in &a[1..] {
+        let p: Vec<&str> = step.split(',').collect();
+        let msg = match p[0] {
+            "R" => {
+                let t = tracking(f64_of_hex(p[1]), f64_of_hex(p[2]), f64_of_hex(p[3]), f64_of_hex(p[4]), p[5].parse().unwrap(), ref_time_for_age(p[6].parse().unwrap()), 0);
+                Message::ClockErrorBoundData((t, p[7].parse().unwrap(), libc::timespec { tv_sec: p[8].parse().unwrap(), tv_nsec: p[9].parse().unwrap() }))
+            }
+            "G" => Message::ChronyNotRespondingGracePeriod,
+            "N" => Message::ChronyNotResponding,
+            _ => continue,
+        };
+        let _ = dbox.send(&ChannelId::ShmWriter, msg);
+    }
+    let _ = dbox.send(&ChannelId::ShmWriter, Message::ThreadAbort);
+    let ctx = Context { mbox: my, dbox, channel_id: ChannelId::ShmWriter };
+    set_clock(BASE_SECS as i128 * 1_000_000_000, 0);
+    let st2 = store.clone();
+    let res = std::panic::catch_unwind(std::panic::AssertUnwindSafe(move || vs::run_process_messages(ctx, vs::Updater::new(Sink(st2), drift))));
+    clock_off();
+    let recs: Vec<String> = store.borrow().iter().map(ceb_fields).collect();
+    match res {
+        Ok(()) => format!("ok {}", recs.join(" ")),
+        Err(p) => format!("panic {} after {}", crate::panic_msg(&p), recs.join(" ")),
     }
 }
